@@ -23,41 +23,138 @@ pub fn worlds(net: &Net, tier: Tier, idx: u64) -> Vec<World> {
         .map(|e| match (k / 3) % 3 {
             0 => (hs[(e * 3 + k) % 7], hs[(e * 5 + k / 7 + 1) % 7]),
             1 => ([0i16, 90][(e + k) % 2], hs[(e * 5 + k / 7 + 1) % 7]),
-            _ => (180, if e % 2 == 0 { 180 } else { hs[(e * 5 + k / 7 + 1) % 7] }),
+            _ => (
+                180,
+                if e % 2 == 0 {
+                    180
+                } else {
+                    hs[(e * 5 + k / 7 + 1) % 7]
+                },
+            ),
         })
         .collect();
     let delays = [0.25, 0.5, 1.0, 1.5, 2.0, 2.5, 3.0, 9.5];
     // (speed unit, model distance unit, model time unit, feature distance unit, feature time unit, delay unit)
-    let units: Vec<(SpeedUnit, DistanceUnit, TimeUnit, DistanceUnit, TimeUnit, TimeUnit)> = vec![
-        (SpeedUnit::KilometersPerHour, DistanceUnit::Meters, TimeUnit::Seconds, DistanceUnit::Meters, TimeUnit::Seconds, TimeUnit::Seconds),
-        (SpeedUnit::MilesPerHour, DistanceUnit::Meters, TimeUnit::Seconds, DistanceUnit::Meters, TimeUnit::Seconds, TimeUnit::Seconds),
-        (SpeedUnit::KilometersPerHour, DistanceUnit::Kilometers, TimeUnit::Minutes, DistanceUnit::Kilometers, TimeUnit::Minutes, TimeUnit::Seconds),
-        (SpeedUnit::MilesPerHour, DistanceUnit::Miles, TimeUnit::Hours, DistanceUnit::Feet, TimeUnit::Milliseconds, TimeUnit::Minutes),
-        (SpeedUnit::MetersPerSecond, DistanceUnit::Feet, TimeUnit::Milliseconds, DistanceUnit::Miles, TimeUnit::Hours, TimeUnit::Hours),
-        (SpeedUnit::KilometersPerHour, DistanceUnit::Inches, TimeUnit::Seconds, DistanceUnit::Kilometers, TimeUnit::Seconds, TimeUnit::Milliseconds),
-        (SpeedUnit::MetersPerSecond, DistanceUnit::Meters, TimeUnit::Hours, DistanceUnit::Inches, TimeUnit::Minutes, TimeUnit::Seconds),
+    let units: Vec<(
+        SpeedUnit,
+        DistanceUnit,
+        TimeUnit,
+        DistanceUnit,
+        TimeUnit,
+        TimeUnit,
+    )> = vec![
+        (
+            SpeedUnit::KilometersPerHour,
+            DistanceUnit::Meters,
+            TimeUnit::Seconds,
+            DistanceUnit::Meters,
+            TimeUnit::Seconds,
+            TimeUnit::Seconds,
+        ),
+        (
+            SpeedUnit::MilesPerHour,
+            DistanceUnit::Meters,
+            TimeUnit::Seconds,
+            DistanceUnit::Meters,
+            TimeUnit::Seconds,
+            TimeUnit::Seconds,
+        ),
+        (
+            SpeedUnit::KilometersPerHour,
+            DistanceUnit::Kilometers,
+            TimeUnit::Minutes,
+            DistanceUnit::Kilometers,
+            TimeUnit::Minutes,
+            TimeUnit::Seconds,
+        ),
+        (
+            SpeedUnit::MilesPerHour,
+            DistanceUnit::Miles,
+            TimeUnit::Hours,
+            DistanceUnit::Feet,
+            TimeUnit::Milliseconds,
+            TimeUnit::Minutes,
+        ),
+        (
+            SpeedUnit::MetersPerSecond,
+            DistanceUnit::Feet,
+            TimeUnit::Milliseconds,
+            DistanceUnit::Miles,
+            TimeUnit::Hours,
+            TimeUnit::Hours,
+        ),
+        (
+            SpeedUnit::KilometersPerHour,
+            DistanceUnit::Inches,
+            TimeUnit::Seconds,
+            DistanceUnit::Kilometers,
+            TimeUnit::Seconds,
+            TimeUnit::Milliseconds,
+        ),
+        (
+            SpeedUnit::MetersPerSecond,
+            DistanceUnit::Meters,
+            TimeUnit::Hours,
+            DistanceUnit::Inches,
+            TimeUnit::Minutes,
+            TimeUnit::Seconds,
+        ),
     ];
     let full = tier == Tier::Thorough;
     for (ui, (su, du, tu, fdu, ftu, delu)) in units.iter().enumerate() {
         for (ii, (id, it)) in [(0.0, 0.0), (12.5, 3.25)].iter().enumerate() {
-            for (wi, (wd, wt, rd, rt)) in [(0.0, 1.0, Rate::Raw, Rate::Raw), (1.0, 1.0, Rate::Factor(0.5), Rate::Factor(2.0)), (1.0, 0.0, Rate::Raw, Rate::Raw), (0.5, 2.0, Rate::Combined(vec![Rate::Factor(0.01), Rate::Offset(1.5)]), Rate::Offset(30.0))].iter().enumerate() {
+            for (wi, (wd, wt, rd, rt)) in [
+                (0.0, 1.0, Rate::Raw, Rate::Raw),
+                (1.0, 1.0, Rate::Factor(0.5), Rate::Factor(2.0)),
+                (1.0, 0.0, Rate::Raw, Rate::Raw),
+                (
+                    0.5,
+                    2.0,
+                    Rate::Combined(vec![Rate::Factor(0.01), Rate::Offset(1.5)]),
+                    Rate::Offset(30.0),
+                ),
+            ]
+            .iter()
+            .enumerate()
+            {
                 for turn_on in [true, false] {
                     if !full && (ui * 3 + ii * 2 + wi + turn_on as usize + k) % 12 != 0 {
                         continue;
                     }
                     out.push(World {
                         net: net.clone(),
-                        trav: Trav::Speed { speed_unit: *su, dist_unit: *du, time_unit: *tu, speeds: speeds.clone() },
+                        trav: Trav::Speed {
+                            speed_unit: *su,
+                            dist_unit: *du,
+                            time_unit: *tu,
+                            speeds: speeds.clone(),
+                        },
                         feat_dist_unit: *fdu,
                         feat_time_unit: *ftu,
                         init_dist: *id,
                         init_time: *it,
-                        turn: if turn_on { Some(TurnCfg { headings: headings.clone(), delays, unit: *delu, blank_departure: (0..m).map(|e| (k / 9) % 2 == 1 && (e + k) % 3 != 1).collect(), no_departure_column: false }) } else { None },
+                        turn: if turn_on {
+                            Some(TurnCfg {
+                                headings: headings.clone(),
+                                delays,
+                                unit: *delu,
+                                blank_departure: (0..m)
+                                    .map(|e| (k / 9) % 2 == 1 && (e + k) % 3 != 1)
+                                    .collect(),
+                                no_departure_column: false,
+                            })
+                        } else {
+                            None
+                        },
                         w_dist: *wd,
                         w_time: *wt,
                         r_dist: rd.clone(),
                         r_time: rt.clone(),
-                        surcharge: if (k + ui) % 3 == 0 { vec![(0, 2.5)] } else { vec![] },
+                        surcharge: if (k + ui) % 3 == 0 {
+                            vec![(0, 2.5)]
+                        } else {
+                            vec![]
+                        },
                         turn_surcharge: vec![],
                         mul: false,
                         term: crate::world::sw::Term::Unlimited,
@@ -67,7 +164,14 @@ pub fn worlds(net: &Net, tier: Tier, idx: u64) -> Vec<World> {
         }
     }
     // distance-only worlds in three unit pairs
-    for (ui, (mu, fu)) in [(DistanceUnit::Meters, DistanceUnit::Meters), (DistanceUnit::Kilometers, DistanceUnit::Miles), (DistanceUnit::Feet, DistanceUnit::Inches)].iter().enumerate() {
+    for (ui, (mu, fu)) in [
+        (DistanceUnit::Meters, DistanceUnit::Meters),
+        (DistanceUnit::Kilometers, DistanceUnit::Miles),
+        (DistanceUnit::Feet, DistanceUnit::Inches),
+    ]
+    .iter()
+    .enumerate()
+    {
         if !full && (ui + k) % 3 != 0 {
             continue;
         }
@@ -89,13 +193,24 @@ pub fn worlds(net: &Net, tier: Tier, idx: u64) -> Vec<World> {
     // the product aggregation over two features (no turn model, no surcharge): each edge costs the product of its weighted,
     // rated changes of distance and time
     for (ui, (su, du, tu, fdu, ftu, _)) in units.iter().enumerate() {
-        for (wi, (wd, wt, rd, rt)) in [(1.0, 1.0, Rate::Raw, Rate::Raw), (0.5, 2.0, Rate::Factor(0.5), Rate::Factor(2.0))].iter().enumerate() {
+        for (wi, (wd, wt, rd, rt)) in [
+            (1.0, 1.0, Rate::Raw, Rate::Raw),
+            (0.5, 2.0, Rate::Factor(0.5), Rate::Factor(2.0)),
+        ]
+        .iter()
+        .enumerate()
+        {
             if !(ui == 0 || ui == 3) || (!full && (ui + wi + k) % 4 != 0) {
                 continue;
             }
             out.push(World {
                 net: net.clone(),
-                trav: Trav::Speed { speed_unit: *su, dist_unit: *du, time_unit: *tu, speeds: speeds.clone() },
+                trav: Trav::Speed {
+                    speed_unit: *su,
+                    dist_unit: *du,
+                    time_unit: *tu,
+                    speeds: speeds.clone(),
+                },
                 feat_dist_unit: *fdu,
                 feat_time_unit: *ftu,
                 init_dist: 0.0,
@@ -123,7 +238,13 @@ pub fn check_case(w: &World, algo: &Algo, orient: &Orient, reverse: bool, st: &m
     let si = match w.si() {
         Ok(si) => si,
         Err(e) => {
-            st.violation("harness", "si_build", 0, || e.clone(), || json!({"world": w}));
+            st.violation(
+                "harness",
+                "si_build",
+                0,
+                || e.clone(),
+                || json!({"world": w}),
+            );
             return;
         }
     };
@@ -131,10 +252,20 @@ pub fn check_case(w: &World, algo: &Algo, orient: &Orient, reverse: bool, st: &m
     st.outcome(out.kind());
     let size = net.size();
     let case = || case_json(w, algo, orient, reverse, Value::Null);
-    let unit_mode = if w.tol() < 1e-6 { "base_units" } else { "mixed_units" };
+    let unit_mode = if w.tol() < 1e-6 {
+        "base_units"
+    } else {
+        "mixed_units"
+    };
     match &out {
         Outcome::Panic(p) => st.violation(&algo.component(), "no_panic", size, || p.clone(), case),
-        Outcome::OtherErr(e) => st.violation(&algo.component(), "no_internal_error", size, || e.clone(), case),
+        Outcome::OtherErr(e) => st.violation(
+            &algo.component(),
+            "no_internal_error",
+            size,
+            || e.clone(),
+            case,
+        ),
         Outcome::Ok { routes, .. } => {
             for (ri, r) in routes.iter().enumerate() {
                 if r.is_empty() {
@@ -143,11 +274,19 @@ pub fn check_case(w: &World, algo: &Algo, orient: &Orient, reverse: bool, st: &m
                 if r.len() >= 2 {
                     st.nontrivial += 1;
                 }
-                let part = if algo.is_ksp() && ri > 0 { "alternative" } else { "best" };
+                let part = if algo.is_ksp() && ri > 0 {
+                    "alternative"
+                } else {
+                    "best"
+                };
                 let comp = format!(
                     "{}.{}.{}.{}.{}{}",
                     algo.component(),
-                    if matches!(orient, Orient::Vertex { .. }) { "vertex" } else { "edge" },
+                    if matches!(orient, Orient::Vertex { .. }) {
+                        "vertex"
+                    } else {
+                        "edge"
+                    },
                     if reverse { "reverse" } else { "forward" },
                     part,
                     unit_mode,
@@ -158,7 +297,13 @@ pub fn check_case(w: &World, algo: &Algo, orient: &Orient, reverse: bool, st: &m
                     st.pass("route_accumulates_true_sums");
                 }
                 for (c, d) in bad {
-                    st.violation(&comp, c, size + r.len() as u64, || format!("route #{} {:?}: {}", ri, route_ids(r), d), case);
+                    st.violation(
+                        &comp,
+                        c,
+                        size + r.len() as u64,
+                        || format!("route #{} {:?}: {}", ri, route_ids(r), d),
+                        case,
+                    );
                 }
             }
         }
@@ -170,14 +315,24 @@ pub fn algos(tier: Tier) -> Vec<Algo> {
     let mut v = vec![
         Algo::Dijkstra,
         Algo::AStar(Some(1.0)),
-        Algo::SingleVia { k: 3, under: Box::new(Algo::Dijkstra), sim: Some(Sim::EdgeCos(0.99)), term: None },
+        Algo::SingleVia {
+            k: 3,
+            under: Box::new(Algo::Dijkstra),
+            sim: Some(Sim::EdgeCos(0.99)),
+            term: None,
+        },
         // an inadmissible estimate: vertices are reached again over cheaper ways after they were expanded (fix 149ab43 was
         // found under factor 10 in the thorough tier only)
         Algo::AStar(Some(10.0)),
     ];
     if tier == Tier::Thorough {
         v.push(Algo::AStar(Some(3.0)));
-        v.push(Algo::SingleVia { k: 4, under: Box::new(Algo::AStar(Some(1.0))), sim: Some(Sim::DistCos(0.95)), term: Some(KTerm::Factor(2)) });
+        v.push(Algo::SingleVia {
+            k: 4,
+            under: Box::new(Algo::AStar(Some(1.0))),
+            sim: Some(Sim::DistCos(0.95)),
+            term: Some(KTerm::Factor(2)),
+        });
     }
     v
 }
@@ -188,9 +343,27 @@ pub fn for_net(net: &Net, tier: Tier, idx: u64, st: &mut Stats) {
     let m = net.m();
     for w in worlds(net, tier, idx).iter() {
         for algo in algos(tier).iter() {
-            check_case(w, algo, &Orient::Vertex { o: 0, d: Some(n - 1) }, false, st);
+            check_case(
+                w,
+                algo,
+                &Orient::Vertex {
+                    o: 0,
+                    d: Some(n - 1),
+                },
+                false,
+                st,
+            );
             if !algo.is_ksp() {
-                check_case(w, algo, &Orient::Vertex { o: 0, d: Some(n - 1) }, true, st);
+                check_case(
+                    w,
+                    algo,
+                    &Orient::Vertex {
+                        o: 0,
+                        d: Some(n - 1),
+                    },
+                    true,
+                    st,
+                );
             }
             for o in 0..m {
                 for d in 0..m {
@@ -207,15 +380,64 @@ pub fn for_net(net: &Net, tier: Tier, idx: u64, st: &mut Stats) {
 pub fn specs(tier: Tier) -> Vec<GenSpec> {
     match tier {
         Tier::Quick => vec![
-            GenSpec { n: 3, max_edges: 5, max_mult: 2, n_len: 2, self_loops: true, mode: LenMode::Alphabet },
-            GenSpec { n: 4, max_edges: 5, max_mult: 1, n_len: 1, self_loops: false, mode: LenMode::PowersOfTwo },
-            GenSpec { n: 4, max_edges: 4, max_mult: 2, n_len: 2, self_loops: true, mode: LenMode::Metric },
+            GenSpec {
+                n: 3,
+                max_edges: 5,
+                max_mult: 2,
+                n_len: 2,
+                self_loops: true,
+                mode: LenMode::Alphabet,
+            },
+            GenSpec {
+                n: 4,
+                max_edges: 5,
+                max_mult: 1,
+                n_len: 1,
+                self_loops: false,
+                mode: LenMode::PowersOfTwo,
+            },
+            GenSpec {
+                n: 4,
+                max_edges: 4,
+                max_mult: 2,
+                n_len: 2,
+                self_loops: true,
+                mode: LenMode::Metric,
+            },
         ],
         Tier::Thorough => vec![
-            GenSpec { n: 3, max_edges: 5, max_mult: 2, n_len: 2, self_loops: true, mode: LenMode::Alphabet },
-            GenSpec { n: 4, max_edges: 5, max_mult: 2, n_len: 1, self_loops: false, mode: LenMode::PowersOfTwo },
-            GenSpec { n: 4, max_edges: 5, max_mult: 1, n_len: 2, self_loops: true, mode: LenMode::Metric },
-            GenSpec { n: 5, max_edges: 5, max_mult: 1, n_len: 1, self_loops: false, mode: LenMode::Alphabet },
+            GenSpec {
+                n: 3,
+                max_edges: 5,
+                max_mult: 2,
+                n_len: 2,
+                self_loops: true,
+                mode: LenMode::Alphabet,
+            },
+            GenSpec {
+                n: 4,
+                max_edges: 5,
+                max_mult: 2,
+                n_len: 1,
+                self_loops: false,
+                mode: LenMode::PowersOfTwo,
+            },
+            GenSpec {
+                n: 4,
+                max_edges: 5,
+                max_mult: 1,
+                n_len: 2,
+                self_loops: true,
+                mode: LenMode::Metric,
+            },
+            GenSpec {
+                n: 5,
+                max_edges: 5,
+                max_mult: 1,
+                n_len: 1,
+                self_loops: false,
+                mode: LenMode::Alphabet,
+            },
         ],
     }
 }
@@ -232,20 +454,61 @@ pub fn app_layer(scratch: &crate::world::app::Scratch, net: &Net, st: &mut Stats
     }
     let k = net.hash_idx() as usize;
     let units = [
-        (SpeedUnit::KilometersPerHour, DistanceUnit::Meters, TimeUnit::Seconds, TimeUnit::Seconds),
-        (SpeedUnit::MilesPerHour, DistanceUnit::Miles, TimeUnit::Hours, TimeUnit::Minutes),
-        (SpeedUnit::KilometersPerHour, DistanceUnit::Kilometers, TimeUnit::Minutes, TimeUnit::Seconds),
-        (SpeedUnit::MetersPerSecond, DistanceUnit::Feet, TimeUnit::Milliseconds, TimeUnit::Hours),
+        (
+            SpeedUnit::KilometersPerHour,
+            DistanceUnit::Meters,
+            TimeUnit::Seconds,
+            TimeUnit::Seconds,
+        ),
+        (
+            SpeedUnit::MilesPerHour,
+            DistanceUnit::Miles,
+            TimeUnit::Hours,
+            TimeUnit::Minutes,
+        ),
+        (
+            SpeedUnit::KilometersPerHour,
+            DistanceUnit::Kilometers,
+            TimeUnit::Minutes,
+            TimeUnit::Seconds,
+        ),
+        (
+            SpeedUnit::MetersPerSecond,
+            DistanceUnit::Feet,
+            TimeUnit::Milliseconds,
+            TimeUnit::Hours,
+        ),
     ];
     let (su, du, tu, delu) = units[k % units.len()];
     let speeds: Vec<f64> = (0..m).map(|e| [10.0, 30.0, 60.0][(e + k) % 3]).collect();
     let hs = [0i16, 90, 180, 270, 350, 45, 200];
-    let headings: Vec<(i16, i16)> = (0..m).map(|e| if (k / 4) % 2 == 0 { (hs[(e * 3 + k) % 7], hs[(e * 5 + k / 7 + 1) % 7]) } else { ([0i16, 90][(e + k) % 2], hs[(e * 5 + 1) % 7]) }).collect();
-    let turn = TurnCfg { headings, delays: [0.25, 0.5, 1.0, 1.5, 2.0, 2.5, 3.0, 9.5], unit: delu, blank_departure: (0..m).map(|e| (k / 30) % 3 == 1 && (e + k / 90) % 2 == 0).collect(), no_departure_column: (k / 30) % 3 == 2 };
+    let headings: Vec<(i16, i16)> = (0..m)
+        .map(|e| {
+            if (k / 4) % 2 == 0 {
+                (hs[(e * 3 + k) % 7], hs[(e * 5 + k / 7 + 1) % 7])
+            } else {
+                ([0i16, 90][(e + k) % 2], hs[(e * 5 + 1) % 7])
+            }
+        })
+        .collect();
+    let turn = TurnCfg {
+        headings,
+        delays: [0.25, 0.5, 1.0, 1.5, 2.0, 2.5, 3.0, 9.5],
+        unit: delu,
+        blank_departure: (0..m)
+            .map(|e| (k / 30) % 3 == 1 && (e + k / 90) % 2 == 0)
+            .collect(),
+        no_departure_column: (k / 30) % 3 == 2,
+    };
     let (wd, wt) = [(0.0, 1.0), (1.0, 1.0), (0.5, 2.0)][(k / 3) % 3];
     let w = World {
         net: net.clone(),
-        trav: Trav::Speed { speed_unit: su, dist_unit: du, time_unit: tu, speeds: speeds.clone() },
+        trav: Trav::Speed {
+            speed_unit: su,
+            dist_unit: du,
+            time_unit: tu,
+            speeds: speeds.clone(),
+        },
         feat_dist_unit: du,
         feat_time_unit: tu,
         init_dist: 0.0,
@@ -266,14 +529,26 @@ pub fn app_layer(scratch: &crate::world::app::Scratch, net: &Net, st: &mut Stats
     spec.distance_unit = du;
     spec.turn = Some(turn);
     spec.cost = json!({"weights": {"distance": wd, "time": wt}, "vehicle_rates": {"distance": {"type": "raw"}, "time": {"type": "factor", "factor": 2.0}}, "cost_aggregation": "sum", "network_rates": {}});
-    spec.output_plugins = vec![json!({"type": "traversal", "route": "json", "geometry_input_file": "$DIR/geometries.txt"})];
+    spec.output_plugins = vec![
+        json!({"type": "traversal", "route": "json", "geometry_input_file": "$DIR/geometries.txt"}),
+    ];
     // (the same network can come from two families at the same time: the directory name carries a counter)
     static APP_DIR_COUNTER: std::sync::atomic::AtomicU64 = std::sync::atomic::AtomicU64::new(0);
-    let dir = scratch.path.join(format!("a{}_{}", net.hash_idx(), APP_DIR_COUNTER.fetch_add(1, std::sync::atomic::Ordering::Relaxed)));
+    let dir = scratch.path.join(format!(
+        "a{}_{}",
+        net.hash_idx(),
+        APP_DIR_COUNTER.fetch_add(1, std::sync::atomic::Ordering::Relaxed)
+    ));
     let app = match spec.build(&dir) {
         Ok(a) => a,
         Err(e) => {
-            st.violation("harness", "app_build", 0, || e.clone(), || json!({"net": net}));
+            st.violation(
+                "harness",
+                "app_build",
+                0,
+                || e.clone(),
+                || json!({"net": net}),
+            );
             return;
         }
     };
@@ -289,7 +564,18 @@ pub fn app_layer(scratch: &crate::world::app::Scratch, net: &Net, st: &mut Stats
     let res = match crate::engine::guarded(|| app.run(batch.clone(), None)) {
         Ok(Ok(r)) => r,
         other => {
-            st.violation("app", "run_returns_responses", net.size(), || format!("{:?}", other.map(|r| r.map(|v| v.len()).map_err(|e| e.to_string()))), || json!({"net": net, "app_layer": true}));
+            st.violation(
+                "app",
+                "run_returns_responses",
+                net.size(),
+                || {
+                    format!(
+                        "{:?}",
+                        other.map(|r| r.map(|v| v.len()).map_err(|e| e.to_string()))
+                    )
+                },
+                || json!({"net": net, "app_layer": true}),
+            );
             let _ = std::fs::remove_dir_all(&dir);
             return;
         }
@@ -310,7 +596,12 @@ pub fn app_layer(scratch: &crate::world::app::Scratch, net: &Net, st: &mut Stats
         st.transitions += 1;
         st.traces += 1;
         // slots of the state vector by feature name
-        let idx_of = |name: &str| r["route"]["state_model"][name]["index"].as_u64().or_else(|| r["state_model"][name]["index"].as_u64()).map(|i| i as usize);
+        let idx_of = |name: &str| {
+            r["route"]["state_model"][name]["index"]
+                .as_u64()
+                .or_else(|| r["state_model"][name]["index"].as_u64())
+                .map(|i| i as usize)
+        };
         let (di, ti) = match (idx_of("distance"), idx_of("time")) {
             (Some(a), Some(b)) => (a, b),
             _ => (0, 1),
@@ -318,8 +609,19 @@ pub fn app_layer(scratch: &crate::world::app::Scratch, net: &Net, st: &mut Stats
         let route: Vec<RouteEdge> = path
             .iter()
             .map(|x| {
-                let sv: Vec<f64> = x["result_state"].as_array().map(|a| a.iter().map(|v| v.as_f64().unwrap_or(f64::NAN)).collect()).unwrap_or_default();
-                RouteEdge { edge: x["edge_id"].as_u64().unwrap_or(u64::MAX) as usize, access: x["access_cost"].as_f64().unwrap_or(f64::NAN), traversal: x["traversal_cost"].as_f64().unwrap_or(f64::NAN), state: vec![sv.get(di).copied().unwrap_or(f64::NAN), sv.get(ti).copied().unwrap_or(f64::NAN)] }
+                let sv: Vec<f64> = x["result_state"]
+                    .as_array()
+                    .map(|a| a.iter().map(|v| v.as_f64().unwrap_or(f64::NAN)).collect())
+                    .unwrap_or_default();
+                RouteEdge {
+                    edge: x["edge_id"].as_u64().unwrap_or(u64::MAX) as usize,
+                    access: x["access_cost"].as_f64().unwrap_or(f64::NAN),
+                    traversal: x["traversal_cost"].as_f64().unwrap_or(f64::NAN),
+                    state: vec![
+                        sv.get(di).copied().unwrap_or(f64::NAN),
+                        sv.get(ti).copied().unwrap_or(f64::NAN),
+                    ],
+                }
             })
             .collect();
         if route.len() >= 2 {
@@ -336,14 +638,26 @@ pub fn app_layer(scratch: &crate::world::app::Scratch, net: &Net, st: &mut Stats
             let sd = r["route"]["traversal_summary"]["distance"].as_f64();
             let stime = r["route"]["traversal_summary"]["time"].as_f64();
             if sd != Some(last.state[0]) || stime != Some(last.state[1]) {
-                bad.push(("summary_is_last_state", format!("summary distance {:?} time {:?} but the last record holds {:?}", sd, stime, last.state)));
+                bad.push((
+                    "summary_is_last_state",
+                    format!(
+                        "summary distance {:?} time {:?} but the last record holds {:?}",
+                        sd, stime, last.state
+                    ),
+                ));
             }
         }
         if bad.is_empty() {
             st.pass("app_route_accumulates_true_sums");
         }
         for (c, dtl) in bad {
-            st.violation("app.vertex", c, net.size() + route.len() as u64, || format!("route {:?}: {}", route_ids(&route), dtl), case);
+            st.violation(
+                "app.vertex",
+                c,
+                net.size() + route.len() as u64,
+                || format!("route {:?}: {}", route_ids(&route), dtl),
+                case,
+            );
         }
     }
     let _ = std::fs::remove_dir_all(&dir);
@@ -354,13 +668,33 @@ pub fn app_layer(scratch: &crate::world::app::Scratch, net: &Net, st: &mut Stats
 /// the heuristic (metric lengths on the lattice and on the uneven line) x moderate weight factors, distance-only world
 pub fn reopening_specs(tier: Tier) -> Vec<GenSpec> {
     vec![
-        GenSpec { n: 5, max_edges: tier.pick(4, 5), max_mult: 1, n_len: 3, self_loops: false, mode: LenMode::Metric },
-        GenSpec { n: 5, max_edges: 5, max_mult: 1, n_len: 3, self_loops: false, mode: LenMode::LineMetric },
+        GenSpec {
+            n: 5,
+            max_edges: tier.pick(4, 5),
+            max_mult: 1,
+            n_len: 3,
+            self_loops: false,
+            mode: LenMode::Metric,
+        },
+        GenSpec {
+            n: 5,
+            max_edges: 5,
+            max_mult: 1,
+            n_len: 3,
+            self_loops: false,
+            mode: LenMode::LineMetric,
+        },
     ]
 }
 
 pub fn reopening_algos() -> Vec<Algo> {
-    vec![Algo::AStar(Some(1.5)), Algo::AStar(Some(2.0)), Algo::AStar(Some(3.0)), Algo::AStar(Some(5.0)), Algo::AStar(Some(10.0))]
+    vec![
+        Algo::AStar(Some(1.5)),
+        Algo::AStar(Some(2.0)),
+        Algo::AStar(Some(3.0)),
+        Algo::AStar(Some(5.0)),
+        Algo::AStar(Some(10.0)),
+    ]
 }
 
 pub fn run(tier: Tier) -> i32 {
@@ -375,7 +709,10 @@ pub fn run(tier: Tier) -> i32 {
             app_layer(&scratch, net, st);
         }
         if net.n == 4 && net.m() == 4 {
-            st.sample(1, || json!({"example_world": worlds(net, tier, idx).first()}));
+            st.sample(
+                1,
+                || json!({"example_world": worlds(net, tier, idx).first()}),
+            );
         }
     });
     let rspecs = reopening_specs(tier);
@@ -383,26 +720,82 @@ pub fn run(tier: Tier) -> i32 {
         st.states += 1;
         let w = World::distance(net.clone());
         for algo in reopening_algos().iter() {
-            check_case(&w, algo, &Orient::Vertex { o: 0, d: Some(net.n - 1) }, false, st);
-            check_case(&w, algo, &Orient::Vertex { o: 0, d: Some(net.n - 1) }, true, st);
+            check_case(
+                &w,
+                algo,
+                &Orient::Vertex {
+                    o: 0,
+                    d: Some(net.n - 1),
+                },
+                false,
+                st,
+            );
+            check_case(
+                &w,
+                algo,
+                &Orient::Vertex {
+                    o: 0,
+                    d: Some(net.n - 1),
+                },
+                true,
+                st,
+            );
         }
     });
     st.merge(st2);
     // plain A* (no weight factor, weight factor 1) where the estimate is inconsistent because edges are recorded shorter than
     // the straight line between their end points: a vertex reached again more cheaply after it was expanded
-    let sspecs = vec![GenSpec { n: 5, max_edges: tier.pick(4, 5), max_mult: 1, n_len: 3, self_loops: false, mode: LenMode::LineShort }];
+    let sspecs = vec![GenSpec {
+        n: 5,
+        max_edges: tier.pick(4, 5),
+        max_mult: 1,
+        n_len: 3,
+        self_loops: false,
+        mode: LenMode::LineShort,
+    }];
     let st2b = par_enumerate(&sspecs, |_spec, net, st| {
         st.states += 1;
         let w = World::distance(net.clone());
-        for algo in [Algo::AStar(None), Algo::AStar(Some(1.0)), Algo::AStar(Some(2.0))].iter() {
-            check_case(&w, algo, &Orient::Vertex { o: 0, d: Some(net.n - 1) }, false, st);
-            check_case(&w, algo, &Orient::Vertex { o: 0, d: Some(net.n - 1) }, true, st);
+        for algo in [
+            Algo::AStar(None),
+            Algo::AStar(Some(1.0)),
+            Algo::AStar(Some(2.0)),
+        ]
+        .iter()
+        {
+            check_case(
+                &w,
+                algo,
+                &Orient::Vertex {
+                    o: 0,
+                    d: Some(net.n - 1),
+                },
+                false,
+                st,
+            );
+            check_case(
+                &w,
+                algo,
+                &Orient::Vertex {
+                    o: 0,
+                    d: Some(net.n - 1),
+                },
+                true,
+                st,
+            );
         }
     });
     st.merge(st2b);
     // the same under a time objective: a slow direct edge against a fast detour makes the direct way the expensive one
     // although it is the short one (the shape of the defect repaired by 149ab43); every rotation of three speeds
-    let tspecs = vec![GenSpec { n: 4, max_edges: 5, max_mult: 1, n_len: 3, self_loops: false, mode: LenMode::Metric }];
+    let tspecs = vec![GenSpec {
+        n: 4,
+        max_edges: 5,
+        max_mult: 1,
+        n_len: 3,
+        self_loops: false,
+        mode: LenMode::Metric,
+    }];
     let st3 = par_enumerate(&tspecs, |_spec, net, st| {
         if net.m() == 0 {
             return;
@@ -412,22 +805,46 @@ pub fn run(tier: Tier) -> i32 {
             // speeds, headings and turn delays in base units: with turn delays the cost of an edge depends on the edge before it
             let mut w = crate::props::c01::speed_turn_world(net);
             if let Trav::Speed { speeds, .. } = &mut w.trav {
-                *speeds = (0..net.m()).map(|e| [10.0, 30.0, 60.0][(e + rot) % 3]).collect();
+                *speeds = (0..net.m())
+                    .map(|e| [10.0, 30.0, 60.0][(e + rot) % 3])
+                    .collect();
             }
             // delays of the order of the edge times (minutes, not seconds), so that the turn taken decides which way is cheaper
             if let Some(t) = &mut w.turn {
                 t.unit = TimeUnit::Minutes;
             }
             for algo in [Algo::AStar(Some(3.0)), Algo::AStar(Some(10.0))].iter() {
-                check_case(&w, algo, &Orient::Vertex { o: 0, d: Some(net.n - 1) }, false, st);
-                check_case(&w, algo, &Orient::Vertex { o: 0, d: Some(net.n - 1) }, true, st);
+                check_case(
+                    &w,
+                    algo,
+                    &Orient::Vertex {
+                        o: 0,
+                        d: Some(net.n - 1),
+                    },
+                    false,
+                    st,
+                );
+                check_case(
+                    &w,
+                    algo,
+                    &Orient::Vertex {
+                        o: 0,
+                        d: Some(net.n - 1),
+                    },
+                    true,
+                    st,
+                );
             }
         }
     });
     st.merge(st3);
     let mut desc: Vec<String> = specs.iter().map(|s| s.describe()).collect();
     desc.extend(tspecs.iter().map(|s| format!("{} under a time objective with turn delays (three speed rotations), A* weight factors 3/10", s.describe())));
-    desc.extend(rspecs.iter().map(|s| format!("{} under A* weight factors 1.5/2/3/5/10", s.describe())));
+    desc.extend(
+        rspecs
+            .iter()
+            .map(|s| format!("{} under A* weight factors 1.5/2/3/5/10", s.describe())),
+    );
     finish(
         &info,
         st,
@@ -450,7 +867,10 @@ pub fn replay(case: &Value) -> i32 {
         }
     };
     let algo: Algo = serde_json::from_value(case["algo"].clone()).unwrap_or(Algo::Dijkstra);
-    let orient: Orient = serde_json::from_value(case["orient"].clone()).unwrap_or(Orient::Vertex { o: 0, d: Some(w.net.n - 1) });
+    let orient: Orient = serde_json::from_value(case["orient"].clone()).unwrap_or(Orient::Vertex {
+        o: 0,
+        d: Some(w.net.n - 1),
+    });
     let reverse = case["reverse"].as_bool().unwrap_or(false);
     let mut st = Stats::new();
     if let Ok(si) = w.si() {
@@ -458,7 +878,10 @@ pub fn replay(case: &Value) -> i32 {
         if let Outcome::Ok { routes, .. } = &out {
             for r in routes {
                 for e in r {
-                    println!("edge {} access {} traversal {} state {:?}", e.edge, e.access, e.traversal, e.state);
+                    println!(
+                        "edge {} access {} traversal {} state {:?}",
+                        e.edge, e.access, e.traversal, e.state
+                    );
                 }
                 println!("--");
             }
@@ -470,5 +893,9 @@ pub fn replay(case: &Value) -> i32 {
     for (k, g) in st.violations.iter() {
         println!("REPLAY-VIOLATION {} {}", k, g.detail);
     }
-    if st.violations.is_empty() { 0 } else { 1 }
+    if st.violations.is_empty() {
+        0
+    } else {
+        1
+    }
 }
